@@ -11,6 +11,11 @@ CHECKS = {
          "Drives 2-6 sessions on 1-2 shared mailboxes plus connector updates (APPEND, STORE incl. .SILENT, EXPUNGE, COPY, MOVE, FETCH with and without \\Seen side effect, SEARCH, NOOP, CHECK, STATUS, IDLE...DONE, re-SELECT/EXAMINE/CLOSE/UNSELECT) against the real server; a mirror reconstructs each session's mailbox purely from the untagged responses and every probe must agree with it: row count, dense sequence numbers, strictly ascending UIDs, every learned UID and flag set; counts never shrink without EXPUNGE, EXPUNGE/FETCH stay in range. Held on the histories explored.",
          "Trusts the harness wire parser and mirror. Sequential histories use the verif quiescence barrier after every command (exact positions); in concurrent histories the listed design-level finding (late-arrival renumbering) cannot be excluded, so position/flag disagreements are only counted there while counts, density, UID order and range rules stay hard.",
          "DESIGN.md §4 C01"),
+ "C02": ("exploration",
+         "convergence monitor: observer view after quiescence barrier + NOOP compared with a fresh EXAMINE view; PRNG placement of the observer's flushes; directed table (arrival kind x targeting change x observer placement x source)",
+         "While other sessions and the connector change the observed mailbox, a PRNG decides for every step whether the observer does nothing, only has its queue applied (verif barrier), or flushes with NOOP / FETCH / STORE. At quiescent points the observer's UID FETCH 1:* (UID FLAGS) must equal a fresh session's (same UIDs in order, same flags modulo \\Recent). A directed table runs every (how m arrives) x (what then targets m) x (observer placement) combination (160 scenarios) in both tiers.",
+         "Trusts the quiescence hook (enqueued/applied counters per state) and the wire client. Connector updates never carry \\Deleted among the flags. One listed design-level finding (flag change while a re-filing inside the mailbox is unannounced) is recognised by its exact shape.",
+         "DESIGN.md §4 C02"),
  "C03": ("exploration",
          "reference-model monitor over generated sequentialised command histories (fresh EXAMINE views vs executable model), bulk sizes around the SQL batching limit",
          "Runs the real server in-process and compares, after every few commands of PRNG-generated histories (APPEND/STORE/EXPUNGE/UID EXPUNGE/CLOSE/COPY/MOVE, valid and failing, 1-4 sessions, 3 mailboxes, same-mailbox and already-present destinations) and after each bulk command at sizes 1..2001, the authoritative content of every mailbox (order, flags, bytes) with a small reference model written from the property text. Held on the histories explored; exploration is the right level because the input space is unbounded command sequences.",
